@@ -188,6 +188,8 @@ impl Searcher {
                 game_state: State,
                 best_move: Option<Move>,
                 search_depth: usize,
+                #[cfg(weechess_verif)]
+                verif_index: usize,
             }
 
             // This is a variation of lazy SMP. We rely on the non-determanistic
@@ -208,6 +210,8 @@ impl Searcher {
                     } else {
                         None
                     },
+                    #[cfg(weechess_verif)]
+                    verif_index: i,
                 })
                 .collect();
 
@@ -215,6 +219,8 @@ impl Searcher {
                 thread_data
                     .into_par_iter()
                     .map(|data| {
+                        #[cfg(weechess_verif)]
+                        let _verif_worker = verif::enter_worker(depth, data.verif_index);
                         let game_state = data.game_state;
                         let best_move = data.best_move;
                         let search_depth = data.search_depth;
@@ -968,6 +974,34 @@ pub mod verif {
 
     static SHARED_LOG: std::sync::Mutex<Vec<LogRecord>> = std::sync::Mutex::new(Vec::new());
 
+    thread_local! {
+        /// non-zero while this thread runs worker `index` of iteration `depth`:
+        /// `1_000_000 + depth * 1000 + index`; logged in place of the thread id
+        static WORKER_TAG: std::cell::Cell<u64> = std::cell::Cell::new(0);
+    }
+
+    pub struct WorkerGuard(u64);
+
+    impl Drop for WorkerGuard {
+        fn drop(&mut self) {
+            WORKER_TAG.with(|t| t.set(self.0));
+        }
+    }
+
+    pub(super) fn enter_worker(depth: usize, index: usize) -> WorkerGuard {
+        let tag = 1_000_000 + (depth as u64) * 1000 + index as u64;
+        WorkerGuard(WORKER_TAG.with(|t| t.replace(tag)))
+    }
+
+    fn log_id() -> u64 {
+        let tag = WORKER_TAG.with(|t| t.get());
+        if tag != 0 {
+            tag
+        } else {
+            THREAD_ID.with(|i| *i)
+        }
+    }
+
     pub(super) fn poll_hook() -> bool {
         let at = CANCEL_AT_POLL.load(Ordering::SeqCst);
         if at < 0 {
@@ -1020,7 +1054,7 @@ pub mod verif {
     pub(super) fn log_find(hash: Hash, result: Option<&TranspositionEntry>) {
         if LOGGING.load(Ordering::Relaxed) {
             let t = TICKET.fetch_add(1, Ordering::SeqCst);
-            let id = THREAD_ID.with(|i| *i);
+            let id = log_id();
             push((t, id, false, hash, result.map(tuple_of)));
         }
     }
@@ -1028,7 +1062,7 @@ pub mod verif {
     pub(super) fn log_insert(hash: Hash, entry: &TranspositionEntry) {
         if LOGGING.load(Ordering::Relaxed) {
             let t = TICKET.fetch_add(1, Ordering::SeqCst);
-            let id = THREAD_ID.with(|i| *i);
+            let id = log_id();
             push((t, id, true, hash, Some(tuple_of(entry))));
         }
     }
